@@ -8,6 +8,7 @@ import InvProxy.Base.GoTypes
 import InvProxy.Gen.Consts
 import InvProxy.Gen.Funcs
 import InvProxy.Proofs.StripWS
+import InvProxy.Proofs.ConnOpt
 namespace InvProxy.C09
 open InvProxy InvProxy.Gen
 
@@ -20,8 +21,8 @@ theorem keys_distinct : userKey ≠ authKey := by decide
 /-- what the regenerated slice of `forwardRequest` does, in one line -/
 theorem fwd_eq (fu sc : Bool) (u : Bytes) (h : Hdr) :
     agent_forwardRequestHeader fu sc u h =
-      (if sc then Hdr.del (if fu then Hdr.set h userKey u else h) authKey
-       else (if fu then Hdr.set h userKey u else h)) := by
+      (if sc then Hdr.del (if fu then Hdr.dropConnOption (Hdr.set h userKey u) utils_HeaderUserID else h) authKey
+       else (if fu then Hdr.dropConnOption (Hdr.set h userKey u) utils_HeaderUserID else h)) := by
   cases fu <;> cases sc <;>
     simp [agent_forwardRequestHeader, Id.run, pure, Hdr.Set, Hdr.Del, userKey, authKey]
 
@@ -30,8 +31,41 @@ theorem fwd_eq (fu sc : Bool) (u : Bytes) (h : Hdr) :
     repeated; every spelling of the name is folded onto this key by the HTTP parser). -/
 theorem user_id_exact (sc : Bool) (u : Bytes) (h : Hdr) :
     Hdr.values (agent_forwardRequestHeader true sc u h) userKey = [u] := by
+  have hc : userKey ≠ Hdr.connKey := by decide
   rw [fwd_eq]
-  cases sc <;> simp [Hdr.values_del_ne _ _ _ keys_distinct]
+  cases sc <;>
+    simp [Hdr.values_del_ne _ _ _ keys_distinct, ConnOpt.values_drop_ne _ _ _ hc]
+
+/-- … and no `Connection` option names it any more, whatever `Connection` values the client
+    sent (any case, padded, repeated, among other options): `httputil.ReverseProxy`, which
+    deletes exactly the keys in `Hdr.connDrops` before forwarding, cannot be made to drop it. -/
+theorem identity_not_hop_by_hop (sc : Bool) (u : Bytes) (h : Hdr) :
+    userKey ∉ Hdr.connDrops (agent_forwardRequestHeader true sc u h) := by
+  have hopt : Hdr.connOptions (agent_forwardRequestHeader true sc u h) =
+      (Hdr.connOptions (Hdr.set h userKey u)).filter (fun o => !(Hdr.equalFold o utils_HeaderUserID)) := by
+    rw [← ConnOpt.connOptions_drop, fwd_eq]
+    cases sc
+    · simp
+    · simp only [if_true]
+      exact ConnOpt.connOptions_congr _ _ (Hdr.values_del_ne _ _ _ (by decide))
+  intro hm
+  unfold Hdr.connDrops at hm
+  rw [hopt] at hm
+  obtain ⟨o, ho, hcan⟩ := List.mem_map.mp hm
+  have hf := (List.mem_filter.mp ho).2
+  rw [ConnOpt.equalFold_of_canon_eq o utils_HeaderUserID hcan] at hf
+  exact Bool.noConfusion hf
+
+/-- `removeHopByHopHeaders` of `httputil.ReverseProxy` as far as `Connection` options go -/
+def rpDropConnNamed (h : Hdr) : Hdr := (Hdr.connDrops h).foldl Hdr.del h
+
+/-- … so the backend receives exactly the asserted identity (C09 for every client header set,
+    `Connection: X-Inverting-Proxy-User-ID` included). -/
+theorem backend_receives_identity (sc : Bool) (u : Bytes) (h : Hdr) :
+    Hdr.values (rpDropConnNamed (agent_forwardRequestHeader true sc u h)) userKey = [u] := by
+  unfold rpDropConnNamed
+  rw [ConnOpt.values_foldl_del _ _ _ (identity_not_hop_by_hop sc u h)]
+  exact user_id_exact sc u h
 
 /-- With credential stripping enabled no Authorization value is left. -/
 theorem no_authorization (fu : Bool) (u : Bytes) (h : Hdr) :
@@ -39,12 +73,43 @@ theorem no_authorization (fu : Bool) (u : Bytes) (h : Hdr) :
   rw [fwd_eq]; simp [Hdr.values_del_self]
 
 /-- The two options are independent and touch nothing else: every other header field
+    (`Connection` aside, from which only options naming the identity header are removed)
     reaches the handler chain unchanged, for all four flag combinations. -/
 theorem other_headers_untouched (fu sc : Bool) (u : Bytes) (h : Hdr) (k : Bytes)
-    (hu : k ≠ userKey) (ha : k ≠ authKey) :
+    (hu : k ≠ userKey) (ha : k ≠ authKey) (hc : k ≠ Hdr.connKey) :
     Hdr.values (agent_forwardRequestHeader fu sc u h) k = Hdr.values h k := by
   rw [fwd_eq]
-  cases fu <;> cases sc <;> simp [Hdr.values_del_ne _ _ _ ha, Hdr.values_set_ne _ _ _ _ hu]
+  cases fu <;> cases sc <;>
+    simp [Hdr.values_del_ne _ _ _ ha, Hdr.values_set_ne _ _ _ _ hu, ConnOpt.values_drop_ne _ _ _ hc]
+
+/-- the `Connection` header only loses options: every option that is still there was there before -/
+theorem connection_options_only_removed (fu sc : Bool) (u : Bytes) (h : Hdr) :
+    ∀ o ∈ Hdr.connOptions (agent_forwardRequestHeader fu sc u h), o ∈ Hdr.connOptions h := by
+  have hset : Hdr.connOptions (Hdr.set h userKey u) = Hdr.connOptions h :=
+    ConnOpt.connOptions_congr _ _ (Hdr.values_set_ne _ _ _ _ (by decide))
+  have hdel : ∀ g : Hdr, Hdr.connOptions (Hdr.del g authKey) = Hdr.connOptions g :=
+    fun g => ConnOpt.connOptions_congr _ _ (Hdr.values_del_ne _ _ _ (by decide))
+  intro o ho
+  rw [fwd_eq] at ho
+  cases fu <;> cases sc <;>
+    simp only [if_true, if_false, Bool.false_eq_true, hdel, ConnOpt.connOptions_drop, hset] at ho
+  · exact ho
+  · exact ho
+  · exact (List.mem_filter.mp ho).1
+  · exact (List.mem_filter.mp ho).1
+
+/-- … and only those naming the identity header are lost (e.g. `Upgrade`, `close`, `keep-alive` stay) -/
+theorem other_connection_options_kept (sc : Bool) (u : Bytes) (h : Hdr) (o : Bytes)
+    (ho : o ∈ Hdr.connOptions h) (hne : Hdr.equalFold o utils_HeaderUserID = false) :
+    o ∈ Hdr.connOptions (agent_forwardRequestHeader true sc u h) := by
+  have hset : Hdr.connOptions (Hdr.set h userKey u) = Hdr.connOptions h :=
+    ConnOpt.connOptions_congr _ _ (Hdr.values_set_ne _ _ _ _ (by decide))
+  have hdel : ∀ g : Hdr, Hdr.connOptions (Hdr.del g authKey) = Hdr.connOptions g :=
+    fun g => ConnOpt.connOptions_congr _ _ (Hdr.values_del_ne _ _ _ (by decide))
+  rw [fwd_eq]
+  cases sc <;>
+    simp only [if_true, if_false, Bool.false_eq_true, hdel, ConnOpt.connOptions_drop, hset]
+  all_goals exact List.mem_filter.mpr ⟨ho, by simp [hne]⟩
 
 theorem flags_off_identity (u : Bytes) (h : Hdr) : agent_forwardRequestHeader false false u h = h := by
   rw [fwd_eq]; simp
@@ -54,6 +119,11 @@ theorem user_id_off (sc : Bool) (u : Bytes) (h : Hdr) :
     Hdr.values (agent_forwardRequestHeader false sc u h) userKey = Hdr.values h userKey := by
   rw [fwd_eq]
   cases sc <;> simp [Hdr.values_del_ne _ _ _ keys_distinct]
+
+-- non-vacuity: a forged identity, named in Connection next to another option
+example : agent_forwardRequestHeader true false [117]
+    [(userKey, [[114,111,111,116]]), (Hdr.connKey, [[99,108,111,115,101,44,32,120,45,105,110,118,101,114,116,105,110,103,45,112,114,111,120,121,45,117,115,101,114,45,105,100]])] =
+    [(Hdr.connKey, [[99,108,111,115,101]]), (userKey, [[117]])] := by decide
 
 /-! ### websocket-shim connections: the dial header is `stripWSHeader` of the edited header -/
 
@@ -70,7 +140,8 @@ theorem shim_no_authorization (fu : Bool) (u : Bytes) (h : Hdr) :
     Hdr.values (websockets_stripWSHeader (agent_forwardRequestHeader fu true u h)) authKey = [] := by
   rw [fwd_eq]
   simp only [if_true]
-  rcases strip_values_sub (Hdr.del (if fu then Hdr.set h userKey u else h) authKey) authKey with h1 | ⟨p, hp, hk, _⟩
+  generalize (if fu = true then Hdr.dropConnOption (Hdr.set h userKey u) utils_HeaderUserID else h) = g
+  rcases strip_values_sub (Hdr.del g authKey) authKey with h1 | ⟨p, hp, hk, _⟩
   · exact h1
   · exact absurd hk (StripWS.del_no_key _ _ p hp)
 
